@@ -267,7 +267,32 @@ def C16_4_5(ctx, facts):
         ctx.check(got == w, "from_binding|v4=%s,v6=%s" % (h4, h6), "from_binding(%s, %s) = %s" % (h4, h6, w), "from_binding(%s, %s) = %s, expected %s" % (h4, h6, got, w), fbf.where())
 
 
+def C16_7(ctx, facts):
+    """The family of an address is the variant of the address value itself (SocketAddr::V4 / V6, IpAddr::V4 / V6): decision
+    table over the two `IpVersionExt::version` impls, evaluated abstractly.  Delegating to `self.ip()` is the same thing; going
+    through a conversion that can change the variant (`to_canonical`, `to_ipv4_mapped`, ...) is not - an IPv4-mapped IPv6
+    socket address would be sorted as IPv4."""
+    impls = [g for g in facts.fns.values() if g.d.get("name") == "version" and (g.d.get("impl_trait") or "").endswith("IpVersionExt")]
+    ctx.floor("IpVersionExt|impls", len(impls), 2, "impls of IpVersionExt::version")
+    for g in impls:
+        u = facts.unit(g, expand=True)
+        ctx.touched(u)
+        st_name = norm(g.d.get("impl_self", "")).split("::")[-1]
+        for fam in ("V4", "V6"):
+            val = ("refval", ("variant", fam, ((0, ("const", "ADDR")),)))
+            oracles = [(r"SocketAddr::ip$", lambda site, vals, fam=fam: ("variant", fam, ((0, ("const", "IP")),)))]
+            try:
+                outs = AbsPaths(u, oracles=oracles).outcomes(state={1: val})
+            except AbsPaths.Undecided as e:
+                ctx.undecided("IpVersionExt::version|%s|%s" % (st_name, fam), str(e), u.where())
+                continue
+            got = sorted({(v[1] if v is not None and v[0] == "variant" else "?") for (v, _) in outs})
+            ctx.check(got == [fam], "IpVersionExt::version|%s|%s" % (st_name, fam), "%s::%s is classified %s" % (st_name, fam, fam),
+                      "%s::%s is classified %s (expected %s): the family is not read off the address variant" % (st_name, fam, got, fam), u.where())
+
+
 RULES = [
+    ("C16.7", C16_7, ["default"]),
     ("C16.1", C16_1_2, ["default"]),
     ("C16.3", C16_3, ["default"]),
     ("C16.4", C16_4_5, ["default"]),
